@@ -9,6 +9,7 @@ VNone  == <<>>
 
 AddrsAll   == {"A1", "A2", "X1"}
 AllowedAll == {"A1", "A2"}
+AddrsTwo   == {"A1", "X1"}
 
 MkCfg(r, g, a, d) == [reclaim |-> r, gossipDead |-> g, allowOn |-> a, aliveDelegate |-> d]
 
